@@ -1271,6 +1271,10 @@ func init() {
 		}
 		return &Block{Stmts: append(stmts, body.Stmts...), Final: body.Final}
 	}})
+	// 49 a union value displayed with %v: the text of the String method of its case
+	add(prod{ext: true, name: "print-union-v", tiny: true, app: is("unit"), mk: func(g *Gen, t Type, env Env2, fuel, pos int) Expr {
+		return call("frt.Printf1", StrLit{"=%v;"}, g.Gen("U", env, fuel-1, PosExpr))
+	}})
 	// 25 sequencing
 	add(prod{name: "seq", rep: true, tiny: true, block: true, app: any_, mk: func(g *Gen, t Type, env Env2, fuel, pos int) Expr {
 		f := g.split(fuel-1, 2)
